@@ -863,8 +863,9 @@ class Executor(ExprMixin, StmtMixin, Engine):
         # every heap field array and global exists from the start, so that old() and the
         # current state share them until written
         for cls, fields in self.m.classes.items():
-            for f in fields:
-                self.heap_arr(st, cls, f)
+            for f, ft in fields.items():
+                if not isinstance(ft, TObj):
+                    self.heap_arr(st, cls, f)
         for g in self.m.globals:
             self.read_global(st, g)
         for (pn, pt, *rest) in c.params:
